@@ -17,6 +17,24 @@ CHECKS = {
          'Proved by induction over operation sequences. Every run sweeps configurations and hostile battles on gmars and evaluates the extracted invariant checker on gmars\' own state after every cycle.'),
    design_ref='DESIGN.md 5 C04', note=NOTE_STD,
    technique='Coq invariant proof by induction over operation sequences + per-run correspondence and extracted invariant monitor'),
+ 'C12': dict(
+   text=('Theorems: one reference step commutes with rotating core and program counter by any k (every effective address is (pc+x) mod M); spawning k cells further, every cycle and the whole run-to-completion '
+         'of the reference scheduler stay rotated (same survivors, same cycle count); offsets congruent modulo M are the same placement; carried to the literal model of RunCycle through the C02 refinement. '
+         'Every run executes pairs of battles (shift k, offsets + j*M including offsets just below 2^64) on gmars and the extracted rotation checker compares all observables.'),
+   design_ref='DESIGN.md 5 C12', note=NOTE_STD,
+   technique='Coq equivariance proof (rotation relation preserved by step/spawn/cycle/run, by induction) + per-run correspondence and extracted rotation monitor'),
+ 'C13': dict(
+   text=('Theorems about the literal API model (every Go panic site explicit, Run with fuel): from any state satisfying the invariant no sequence of AddWarrior/SpawnWarrior/RunCycle/Run/Reset/GetWarrior/GetMem/'
+         'Alive/Queue/NextPC/Length calls panics or leaves Run looping; RunCycle, Run, SpawnWarrior, AddWarrior, GetMem agree with the documented machine (ApiSpec over Mars), inapplicable calls change nothing; '
+         'Reset yields the state of a fresh simulator. Every run enumerates all call sequences to depth 3 (thorough: 4) plus random histories on gmars under recover and a watchdog; the extracted ApiSpec monitor checks every call.'),
+   design_ref='DESIGN.md 5 C13', note=NOTE_STD,
+   technique='Coq proof by induction over call sequences (invariant + refinement to ApiSpec) + exhaustive-to-depth and random differential histories with extracted monitor'),
+ 'C15': dict(
+   text=('Theorems about the report streams of the literal model: for every limits, every cell changed by a task (and by a whole RunCycle from any invariant state) is named by a write/increment/decrement report; '
+         'all addresses are below M and warrior indexes exist; a task-termination report appears exactly when no successor is queued; the StateRecorder model never indexes out of range on such a stream and equals '
+         'the last-touch fold. Every run compares gmars\' Reporter callbacks and StateRecorder state with the model and runs the extracted report checker on gmars\' own stream and per-cycle core dumps.'),
+   design_ref='DESIGN.md 5 C15', note=NOTE_STD,
+   technique='Coq proof (frame lemmas per opcode, induction over the warrior loop, fold lemma for the recorder) + per-run correspondence and extracted report monitor'),
  'C11': dict(
    text=('Theorems: for every M in 2..2^32, limits 1..M, well-formed core and pc: every cell changed by a step is within floor(W/2) of pc, every queued successor other than pc+1/pc+2 within floor(R/2), '
          'operands are fetched within floor(R/2), and with R=W=M the step equals the step with limits ignored. Proved on the reference step and transferred to the literal model through C01. '
